@@ -99,64 +99,54 @@ def _installed_as_builtin(ctx, factory_name):
 
 
 def r2_handler_discipline(ctx, sym):
-    ctx.rule('R2', "each handler of the execution try that catches Exception/SystemExit atoms releases the mocks, "
-                   "then calls _capture_exception exactly once with the caught exception and sys.exc_info(), and "
-                   "continues to the normal exit (no re-raise)")
+    ctx.rule('R2', "Sandbox._execute executed abstractly for every raise point (compile, tracer enter, exec, tracer "
+                   "exit) x exception class: an Exception or SystemExit releases the mocks, then calls "
+                   "_capture_exception exactly once with the caught exception object and sys.exc_info(), and "
+                   "_execute returns normally; other BaseExceptions are released and propagate unrecorded; a clean "
+                   "run records nothing")
+    from .c05 import execute_scenarios
     mod = ctx.repo.module(SANDBOX)
     fn = mod.func('Sandbox._execute')
-    g = CFG(fn, raises=exec_raises)
-    tries = [t for t in ast.walk(fn) if isinstance(t, ast.Try) and any(
-        call_name(c) == 'exec' for c in calls(ast.Module(body=t.body, type_ignores=[])))]
-    ctx.require(len(tries) == 1, "Sandbox._execute no longer has exactly one try around exec")
+    import builtins
     n = 0
-    covered = set()
-    for h in tries[0].handlers:
-        atoms = g._handler_atoms(h.type) - covered
-        covered |= atoms
-        if not (atoms & CONTAINED):
-            continue
+    for where, kind, ob in execute_scenarios(ctx, sym, mod):
         n += 1
-        key = "_execute:except %s" % (norm(h.type) if h.type is not None else '<bare>')
-        hn = g.stmt_nodes.get(id(h), [None])[0]
-        ctx.require(hn is not None, "handler node missing")
-        caps = [x for x in g.nodes_calling(lambda c: is_self_call(c, '_capture_exception'))
-                if any(a is h for a in ancestors(x.ast))]
-        rels = [x for x in g.nodes_calling(lambda c: is_self_call(c, '_stop_mocking'))
-                if any(a is h for a in ancestors(x.ast))]
-        ok = len(caps) >= 1 and g.must_pass(hn, g.exit, caps)
-        ctx.check(ok, 'R2', key + ':captures', mod, h,
-                  "a path through this handler reaches the end of _execute without _capture_exception",
-                  "a student exception of this kind is swallowed silently: no sandbox.exception, no feedback",
-                  function='Sandbox._execute')
-        # exactly once: no capture node reaches another capture node
-        twice = any(c2.id in g.successors_avoiding(c1, []) for c1 in caps for c2 in caps)
-        multi = any(len([c for c in g.own_calls(x) if is_self_call(c, '_capture_exception')]) > 1 for x in caps)
-        ctx.check(not twice and not multi, 'R2', key + ':once', mod, h,
-                  "_capture_exception can run twice for one failure", "two runtime feedbacks for one exception",
-                  function='Sandbox._execute')
-        # arguments
-        for x in caps:
-            c = [c for c in g.own_calls(x) if is_self_call(c, '_capture_exception')][0]
-            ok = len(c.args) >= 2 and h.name is not None and norm(c.args[0]) == h.name \
-                and norm(c.args[1]) == 'sys.exc_info()'
-            ctx.check(ok, 'R2', key + ':args', mod, c,
-                      "_capture_exception is not given the caught exception and sys.exc_info()",
-                      "sandbox.exception is not the student's exception / the traceback is lost",
-                      function='Sandbox._execute')
-        # no re-raise of contained atoms from inside the handler
-        leak = set()
-        reach = g.reachable([hn])
-        for p, label in g.pred[g.xexit.id]:
-            if p in reach and isinstance(label, frozenset) and any(a is h for a in ancestors(g.nodes[p].ast)
-                                                                   if g.nodes[p].ast is not None):
-                leak |= label & CONTAINED
-        ctx.check(not leak, 'R2', key + ':returns-normally', mod, h,
-                  "the handler re-raises {%s} into the instructor script" % describe(leak),
-                  "a failing student program makes run() raise", function='Sandbox._execute')
-    ctx.floor('R2', 'containing handlers', n, 1)
-    ctx.check(CONTAINED <= covered, 'R2', '_execute:handlers-cover', mod, tries[0],
-              "handlers do not cover {%s}" % describe(CONTAINED - covered),
-              "student code raising such an exception escapes run()", function='Sandbox._execute')
+        rec, raised = ob['rec'], ob['raised']
+        caps = rec.named('_capture_exception')
+        tag = '_execute[%s raises %s]' % (where, kind)
+        contained = kind is not None and (issubclass(getattr(builtins, kind), Exception) or kind == 'SystemExit')
+        if kind is None:
+            ctx.check(raised is None and not caps and ob['value'] is ob['me'], 'R2', tag + ':clean', mod, fn,
+                      "a clean execution records %d exception(s)%s" % (
+                          len(caps), '' if raised is None else ' and raises ' + raised.kind),
+                      "every run is reported as failed")
+            continue
+        if contained:
+            ctx.check(raised is None, 'R2', tag + ':returns-normally', mod, fn,
+                      "%s raised at %s leaves _execute (%s)" % (kind, where, getattr(raised, 'kind', '')),
+                      "a failing student program makes run() raise", function='Sandbox._execute')
+            ctx.check(len(caps) == 1, 'R2', tag + ':captures', mod, fn,
+                      "%s raised at %s is recorded %d time(s)" % (kind, where, len(caps)),
+                      "a student exception of this kind is swallowed silently (or reported twice): no "
+                      "sandbox.exception, no feedback", function='Sandbox._execute')
+            if len(caps) == 1:
+                a_ = caps[0][1]
+                ctx.check(len(a_) >= 2 and a_[0] is ob['exc'] and a_[1] is ob['exc_info'], 'R2', tag + ':args', mod,
+                          fn, "_capture_exception is not given the caught exception and sys.exc_info()",
+                          "sandbox.exception is not the student's exception / the traceback is lost",
+                          function='Sandbox._execute')
+                ctx.check(rec.order('_stop_mocking', '_capture_exception') == ['_stop_mocking', '_capture_exception'],
+                          'R2', tag + ':release-first', mod, fn,
+                          "the mocks are not released (once) before the failure is recorded: order %s" % (
+                              rec.order('_stop_mocking', '_capture_exception'),),
+                          "pedal builds the feedback while sys.stdout is still the capture buffer",
+                          function='Sandbox._execute')
+        else:
+            ctx.check(raised is not None and raised.kind == kind and not caps, 'R2', tag + ':propagates', mod, fn,
+                      "%s raised at %s: %s, %d capture(s)" % (
+                          kind, where, 'swallowed' if raised is None else 'leaves as ' + raised.kind, len(caps)),
+                      "Ctrl-C during grading is reported as a student error / swallowed", function='Sandbox._execute')
+    ctx.floor('R2', '_execute scenarios', n, 20)
 
 
 def runtime_classes(ctx, sym):
@@ -455,43 +445,66 @@ def r5_block_list(ctx, sym):
     mod = ctx.repo.module(SANDBOX)
     fn = mod.func('Sandbox.reset_default_overrides')
     ctx.analysed_function(mod, fn)
-    blocked = {c.args[0].value for c in calls(fn) if is_self_call(c, 'block_function') and c.args
-               and isinstance(c.args[0], ast.Constant)}
-    mocked_f = {c.args[0].value: c for c in calls(fn) if is_self_call(c, 'mock_function') and c.args
-                and isinstance(c.args[0], ast.Constant)}
-    blocked_m = {c.args[0].value for c in calls(fn) if is_self_call(c, 'block_module') and c.args
-                 and isinstance(c.args[0], ast.Constant)}
-    unconditional = not any(isinstance(n, (ast.If, ast.Try, ast.Return)) for n in body_walk(fn))
+    # reset_default_overrides, block_function/mock_function/block_module and _mock_builtins executed abstractly
+    from .. import symexec
+    from ..fdeval import Obj
+    mm_ = ctx.repo.module(MOCKED)
+    rec = symexec.Recorder()
+    mocked_obj = Obj('mocked', ORIGINAL_BUILTINS={})
+    mocked_obj.attrs['__open__'] = True
+    def make(nm, *a, **k):
+        rec.events.append(('mocked.' + nm, a, k))
+        return Obj('mocked.%s(...)' % nm, made_by=nm, args=a)
+    mocked_obj.attrs['__unknown_method__'] = make
+
+    def b_getattr(o, nm, *default):
+        if o is mocked_obj:
+            f = lambda *a, **k: make(nm, *a, **k)
+            f._fd_callable = True
+            return f
+        if isinstance(o, Obj) and nm in o.attrs:
+            return o.attrs[nm]
+        if default:
+            return default[0]
+        raise Inconclusive('getattr(%r, %r)' % (o, nm))
+    modules = Obj('modules')
+    symexec.method(modules, 'new_module', lambda new_version, module_name, friendly_name=None: {module_name: new_version})
+    me = symexec.self_obj(mod, 'Sandbox', _module_overrides={'leftover': True}, modules=modules, data={},
+                          report=Obj('report'))
+    fd = symexec.new_fd(sym, mod, calls={'getattr': b_getattr}, extra={'mocked': mocked_obj})
+    _, raised = symexec.run(fd, fn, [], bound_self=me, what='Sandbox.reset_default_overrides')
+    table = me.attrs['_module_overrides'].get('__builtins__') if raised is None else None
+    ctx.check(raised is None and isinstance(table, dict), 'R5', 'reset_default_overrides:completes', mod, fn,
+              "reset_default_overrides raises %s / leaves no builtins table" % getattr(raised, 'kind', ''),
+              "a new Sandbox cannot be created")
+    table = table if isinstance(table, dict) else {}
     for name in ('compile', 'eval', 'exec', 'globals', 'exit'):
-        ctx.check(name in blocked and unconditional, 'R5', 'blocked:' + name, mod, fn,
-                  "%s() is not blocked by default" % name,
+        ctx.check(table.get(name, 'absent') is False, 'R5', 'blocked:' + name, mod, fn,
+                  "%s() is not blocked by default (table entry: %r)" % (name, table.get(name, 'absent')),
                   "student code calling %s(...) is executed instead of being refused" % name,
                   construct='reset_default_overrides')
     for name, factory in (('open', 'create_open_function'), ('__import__', 'create_import_function')):
-        c = mocked_f.get(name)
-        ok = c is not None and len(c.args) == 2 and isinstance(c.args[1], ast.Call) and \
-            (call_name(c.args[1]) or '').endswith(factory)
-        ctx.check(ok, 'R5', 'mocked:' + name, mod, c or fn, "%s is not replaced by the restricted version" % name,
+        v = table.get(name)
+        ctx.check(isinstance(v, Obj) and v.attrs.get('made_by') == factory, 'R5', 'mocked:' + name, mod, fn,
+                  "%s is not replaced by the restricted version (table entry: %r)" % (name, v),
                   "student code can open/import anything", construct='reset_default_overrides')
-    ctx.check('pedal' in blocked_m, 'R5', 'blocked-module:pedal', mod, fn, "module pedal is not blocked",
+    pedal_entry = me.attrs['_module_overrides'].get('pedal')
+    ctx.check(isinstance(pedal_entry, Obj) and pedal_entry.attrs.get('made_by') == 'BlockedModule', 'R5',
+              'blocked-module:pedal', mod, fn, "module pedal is not blocked (entry: %r)" % (pedal_entry,),
               "student code imports pedal and tampers with the report", construct='reset_default_overrides')
-    # block_function stores False; _mock_builtins maps False -> disabled_builtin(name)
-    bf = mod.func('Sandbox.block_function')
-    ok = any(isinstance(n, ast.Assign) and isinstance(n.value, ast.Constant) and n.value.value is False
-             and norm(n.targets[0]) == "self._module_overrides['__builtins__'][function_name]" for n in body_walk(bf))
-    ctx.check(ok, 'R5', 'block_function:stores-False', mod, bf, "block_function does not record False",
-              "blocked builtins stay callable")
+    # the resulting table, applied by _mock_builtins: blocked names become disabled_builtin(name) in both places
     mb = mod.func('Sandbox._mock_builtins')
-    ok = False
-    for n in ast.walk(mb):
-        if isinstance(n, ast.If) and norm(n.test) in ('value is False',):
-            tg = [norm(s.targets[0]) for s in n.body if isinstance(s, ast.Assign)
-                  and isinstance(s.value, ast.Call) and (call_name(s.value) or '').endswith('disabled_builtin')]
-            if "data['__builtins__'][name]" in tg and 'data[name]' in tg:
-                ok = True
-    ctx.check(ok, 'R5', '_mock_builtins:False->disabled', mod, mb,
-              "a False entry does not install disabled_builtin(name) in both the builtins dict and the namespace",
-              "student code calling a blocked builtin reaches the real one")
+    ctx.analysed_function(mod, mb)
+    data = {'__builtins__': {}}
+    _, raised = symexec.run(fd, mb, [data, dict(table)], bound_self=me, what='Sandbox._mock_builtins')
+    for name in ('compile', 'eval', 'exec', 'globals', 'exit'):
+        a_, b_ = data['__builtins__'].get(name), data.get(name)
+        ok = raised is None and all(isinstance(x, Obj) and x.attrs.get('made_by') == 'disabled_builtin'
+                                    and x.attrs.get('args') == (name,) for x in (a_, b_))
+        ctx.check(ok, 'R5', '_mock_builtins:False->disabled:' + name, mod, mb,
+                  "a blocked entry does not install disabled_builtin(%r) in both the builtins dict and the namespace "
+                  "(installed: %r / %r)" % (name, a_, b_),
+                  "student code calling a blocked builtin reaches the real one")
     # _start_mocking applies the overrides to the student's namespace
     sm = mod.func('Sandbox._start_mocking')
     ok = any(is_self_call(c, '_mock_builtins') and norm(c.args[0]) == 'self.data' for c in calls(sm)) and \
